@@ -51,6 +51,7 @@ class ClassRef(V):
 class Inst(V):
     def __init__(self, cls):
         self.cls, self.attrs = cls, {}
+        self.ctor_args = ([], {})
 
     def __repr__(self):
         return f"Inst({self.cls})"
@@ -59,6 +60,33 @@ class Inst(V):
 class Tup(V):
     def __init__(self, items):
         self.items = list(items)
+
+
+class DictV(V):
+    """a dict with constant string keys (insertion order kept)"""
+    def __init__(self, items=()):
+        self.items = list(items)
+
+    def get(self, k, default=None):
+        for a, b in self.items:
+            if a == k:
+                return b
+        return default
+
+    def set(self, k, v):
+        for i, (a, b) in enumerate(self.items):
+            if a == k:
+                self.items[i] = (k, v)
+                return
+        self.items.append((k, v))
+
+    def __repr__(self):
+        return "DictV(" + ", ".join(f"{k}={v!r}" for k, v in self.items) + ")"
+
+
+class FnRef(V):
+    def __init__(self, node, module):
+        self.node, self.module = node, module
 
 
 class _Raise(Exception):
@@ -107,8 +135,46 @@ class Interp:
                 if e.attr in base.attrs:
                     return base.attrs[e.attr]
             return UNK
-        if isinstance(e, ast.Tuple):
+        if isinstance(e, (ast.Tuple, ast.List)):
             return Tup(self.ev(x, env, self_inst, cls) for x in e.elts)
+        if isinstance(e, ast.Dict):
+            d = DictV()
+            for k, v in zip(e.keys, e.values):
+                if k is None:
+                    inner = self.ev(v, env, self_inst, cls)
+                    if not isinstance(inner, DictV):
+                        return UNK
+                    for a, b in inner.items:
+                        d.set(a, b)
+                else:
+                    kv = self.ev(k, env, self_inst, cls)
+                    if not (isinstance(kv, Const) and isinstance(kv.v, str)):
+                        return UNK
+                    d.set(kv.v, self.ev(v, env, self_inst, cls))
+            return d
+        if isinstance(e, ast.DictComp) and len(e.generators) == 1 and not e.generators[0].ifs:
+            it = self.ev(e.generators[0].iter, env, self_inst, cls)
+            if isinstance(it, DictV):        # iterating .items() is handled in call(); a bare dict iterates keys
+                it = Tup(Const(k) for k, _ in it.items)
+            if not isinstance(it, Tup):
+                return UNK
+            d = DictV()
+            for item in it.items:
+                env2 = dict(env)
+                self.assign(e.generators[0].target, item, env2, self_inst)
+                kv = self.ev(e.key, env2, self_inst, cls)
+                if not (isinstance(kv, Const) and isinstance(kv.v, str)):
+                    return UNK
+                d.set(kv.v, self.ev(e.value, env2, self_inst, cls))
+            return d
+        if isinstance(e, ast.Subscript):
+            base = self.ev(e.value, env, self_inst, cls)
+            idx = self.ev(e.slice, env, self_inst, cls)
+            if isinstance(base, DictV) and isinstance(idx, Const):
+                return base.get(idx.v, UNK)
+            if isinstance(base, Tup) and isinstance(idx, Const) and isinstance(idx.v, int) and -len(base.items) <= idx.v < len(base.items):
+                return base.items[idx.v]
+            return UNK
         if isinstance(e, ast.IfExp):
             t = self.truth(self.ev(e.test, env, self_inst, cls))
             if t is None:
@@ -151,11 +217,39 @@ class Interp:
         f = e.func
         fs = norm(f)
         args = [self.ev(a, env, self_inst, cls) for a in e.args if not isinstance(a, ast.Starred)]
-        kw = {k.arg: self.ev(k.value, env, self_inst, cls) for k in e.keywords if k.arg}
-        if any(isinstance(a, ast.Starred) for a in e.args) or any(k.arg is None for k in e.keywords):
-            starred = True
-        else:
-            starred = False
+        kw = {}
+        starred = any(isinstance(a, ast.Starred) for a in e.args)
+        for k in e.keywords:
+            v_ = self.ev(k.value, env, self_inst, cls)
+            if k.arg:
+                kw[k.arg] = v_
+            elif isinstance(v_, DictV):              # **d with a known dict
+                for a_, b_ in v_.items:
+                    kw[a_] = b_
+            else:
+                starred = True
+        if fs in ("dict", "OrderedDict", "collections.OrderedDict") and not starred:
+            d = DictV()
+            if len(args) == 1 and isinstance(args[0], DictV):
+                for a_, b_ in args[0].items:
+                    d.set(a_, b_)
+            elif args:
+                return UNK
+            for a_, b_ in kw.items():
+                d.set(a_, b_)
+            return d
+        if isinstance(f, ast.Attribute) and f.attr in ("items", "keys", "values") and not e.args:
+            base = self.ev(f.value, env, self_inst, cls)
+            if isinstance(base, DictV):
+                if f.attr == "items":
+                    return Tup(Tup([Const(k), v]) for k, v in base.items)
+                if f.attr == "keys":
+                    return Tup(Const(k) for k, _ in base.items)
+                return Tup(v for _, v in base.items)
+        if isinstance(f, ast.Name) and isinstance(env.get(f.id), FnRef) and not starred and self.depth < MAX_DEPTH:
+            fr = env[f.id]
+            saved_mod = getattr(self, "modenv", None)
+            return self.run_fn(fr.node, self_inst, cls, args, kw, bind_self=False, closure=env)
         if isinstance(f, ast.Name) and f.id == "isinstance" and len(args) == 2:
             obj, ty = args
             tys = ty.items if isinstance(ty, Tup) else [ty]
@@ -197,6 +291,12 @@ class Interp:
             if starred:
                 return Inst(callee.name)
             return self.instantiate(callee.name, args, kw)
+        # a function of the module the code lives in
+        if isinstance(f, ast.Name) and cls in self.repo.classes and not starred:
+            mod = self.repo.classes[cls].module
+            hfn = mod.functions.get(f.id)
+            if hfn is not None and self.depth < MAX_DEPTH:
+                return self.run_fn(hfn, self_inst, cls, args, kw, bind_self=False)
         # helper of the class: self.h(...) / Cls.h(...)
         if isinstance(f, ast.Attribute) and isinstance(f.value, ast.Name) and (f.value.id == "self" or f.value.id in self.repo.classes):
             owner = self_inst.cls if f.value.id == "self" else f.value.id
@@ -211,6 +311,7 @@ class Interp:
         if self.depth > MAX_DEPTH:
             return Inst(cname)
         inst = Inst(cname)
+        inst.ctor_args = (list(args), dict(kwargs or {}))
         self.run_init(inst, after_cls=None, args=list(args), kwargs=dict(kwargs or {}))
         return inst
 
@@ -220,12 +321,12 @@ class Interp:
             return
         self.run_fn(fn, inst, defcls, args, kwargs, bind_self=True)
 
-    def run_fn(self, fn, self_inst, defcls, args, kwargs, bind_self=True):
+    def run_fn(self, fn, self_inst, defcls, args, kwargs, bind_self=True, closure=None):
         self.depth += 1
         try:
             a = fn.args
             params = [x.arg for x in a.posonlyargs + a.args]
-            env = {}
+            env = dict(closure) if closure else {}
             if bind_self and params:
                 env[params[0]] = self_inst
                 params = params[1:]
@@ -256,6 +357,11 @@ class Interp:
             base = env.get(target.value.id) if isinstance(target.value, ast.Name) else None
             if isinstance(base, Inst):
                 base.attrs[target.attr] = value
+        elif isinstance(target, ast.Subscript):
+            base = self.ev(target.value, env, self_inst, None) if isinstance(target.value, (ast.Name, ast.Attribute)) else None
+            idx = self.ev(target.slice, env, self_inst, None)
+            if isinstance(base, DictV) and isinstance(idx, Const) and isinstance(idx.v, str):
+                base.set(idx.v, value)
         elif isinstance(target, (ast.Tuple, ast.List)):
             items = value.items if isinstance(value, Tup) and len(value.items) == len(target.elts) else [UNK] * len(target.elts)
             for t, v in zip(target.elts, items):
@@ -276,7 +382,7 @@ class Interp:
                                     b.attrs[x.attr] = UNK
 
     def block(self, stmts, env, self_inst, cls):
-        for s in stmts:
+        for i, s in enumerate(stmts):
             if isinstance(s, ast.Expr):
                 if isinstance(s.value, ast.Constant):
                     continue
@@ -296,13 +402,69 @@ class Interp:
                 elif t is False:
                     self.block(s.orelse, env, self_inst, cls)
                 else:
-                    # undecided: a branch that only raises is taken not to run (the constructor succeeds with these
-                    # arguments on the unchanged tree); otherwise what either branch assigns is unknown
-                    def only_raises(b):
-                        return bool(b) and all(isinstance(x, (ast.Raise, ast.Expr)) for x in b) and any(isinstance(x, ast.Raise) for x in b)
-                    if only_raises(s.body) and not s.orelse:
-                        continue
-                    self.havoc(s.body + s.orelse, env, self_inst)
+                    # undecided: both continuations are interpreted on copies of the state; one that ends in a raise is
+                    # taken not to happen (the constructor succeeds with these arguments on the unchanged tree); if both
+                    # complete, what they disagree on is unknown
+                    rest = list(stmts[i + 1:])
+                    outs = []
+                    for branch in (list(s.body), list(s.orelse)):
+                        env2 = dict(env)
+                        insts = [v for v in list(env.values()) + [self_inst] if isinstance(v, Inst)]
+                        saved = [(x, dict(x.attrs)) for x in insts]
+                        try:
+                            self.block(branch + rest, env2, self_inst, cls)
+                            outs.append(("fall", env2, [(x, dict(x.attrs)) for x in insts]))
+                        except _Return as r:
+                            outs.append(("ret", r.value, [(x, dict(x.attrs)) for x in insts]))
+                        except AnalysisError:
+                            outs.append(("fail", None, None))
+                        for x, a in saved:
+                            x.attrs.clear()
+                            x.attrs.update(a)
+                    good = [o for o in outs if o[0] != "fail"]
+                    if not good:
+                        raise AnalysisError(f"constructor of {self_inst.cls if self_inst else cls}: every continuation of "
+                                            f"`if {norm(s.test, 50)}` raises")
+                    if len(good) == 1 or (good[0][0] == "ret" and good[1][0] == "ret" and repr(good[0][1]) == repr(good[1][1])
+                                          and not isinstance(good[0][1], Inst)):
+                        o = good[0]
+                    else:
+                        o = None
+                    if o is not None:
+                        for x, a in o[2]:
+                            x.attrs.clear()
+                            x.attrs.update(a)
+                        if o[0] == "ret":
+                            raise _Return(o[1])
+                        env.clear()
+                        env.update(o[1])
+                        return
+                    # two live continuations: merge what they agree on
+                    kinds = {g[0] for g in good}
+                    for x, _ in good[0][2]:
+                        a0 = dict(good[0][2])[x] if False else None
+                    attrs_by_inst = {}
+                    for g in good:
+                        for x, a in g[2]:
+                            attrs_by_inst.setdefault(id(x), (x, []))[1].append(a)
+                    for _, (x, alist) in attrs_by_inst.items():
+                        keys = set().union(*[set(a) for a in alist])
+                        for k in keys:
+                            vals = [a.get(k, UNK) for a in alist]
+                            same = all(repr(v) == repr(vals[0]) and not isinstance(v, Inst) or v is vals[0] for v in vals)
+                            same = same or (all(isinstance(v, Inst) for v in vals) and len({v.cls for v in vals}) == 1)
+                            x.attrs[k] = vals[0] if same else UNK
+                    if kinds == {"ret"}:
+                        raise _Return(UNK)
+                    if kinds == {"fall"}:
+                        envs = [g[1] for g in good]
+                        for k in set().union(*[set(e_) for e_ in envs]):
+                            vals = [e_.get(k, UNK) for e_ in envs]
+                            same = all(repr(v) == repr(vals[0]) for v in vals) and not isinstance(vals[0], Inst) or all(v is vals[0] for v in vals)
+                            same = same or (all(isinstance(v, Inst) for v in vals) and len({v.cls for v in vals}) == 1)
+                            env[k] = vals[0] if same else UNK
+                        return
+                    raise _Return(UNK)
             elif isinstance(s, ast.Return):
                 raise _Return(self.ev(s.value, env, self_inst, cls) if s.value is not None else NONE)
             elif isinstance(s, ast.Raise):
@@ -339,3 +501,30 @@ def attr_class(repo, cname, attr, **kwargs):
     if not isinstance(v, Inst):
         raise AnalysisError(f"cannot derive the class of {cname}().{attr} from its constructor (got {v!r})")
     return v.cls
+
+
+def module_value(repo, module, name):
+    """abstract value of a module-level name after the module's top-level statements ran (tables such as
+    pvl_validate.dialects built through helper functions, comprehensions, ** merges and later item assignments)"""
+    key = (id(repo), "module", module, name)
+    if key in _CACHE:
+        return _CACHE[key]
+    it = Interp(repo)
+    mod = repo.module(module)
+    env = {}
+    for st in mod.tree.body:
+        if isinstance(st, ast.FunctionDef):
+            env[st.name] = FnRef(st, module)
+            continue
+        if isinstance(st, (ast.ClassDef, ast.Import, ast.ImportFrom)):
+            continue
+        if isinstance(st, ast.Expr) and isinstance(st.value, ast.Constant):
+            continue
+        if isinstance(st, ast.If):
+            continue            # `if __name__ == "__main__":`
+        try:
+            it.block([st], env, None, None)
+        except (_Return, AnalysisError):
+            pass
+    _CACHE[key] = env.get(name, UNK)
+    return _CACHE[key]
